@@ -32,6 +32,8 @@ var c06ReqCands = []string{
 	"||ads.com^$domain=ref.com|x.com", "||ads.com^$domain=x.com|x.com,badfilter", "||ads.com^$domain=x.com|ref.com,badfilter",
 	// a $badfilter rule that carries a rewrite is the twin of the rewrite rule only, never of the plain rule
 	"||ads.com^$dnsrewrite=1.2.3.4,badfilter", "@@||ads.com^$dnsrewrite,badfilter",
+	// rewrites of record types without a value parser are rewrites all the same
+	"||ads.com^$dnsrewrite=NOERROR;NS;ns1.example.net", "||ads.com^$dnsrewrite=NOERROR;SOA;x,important", "||ads.com^$dnsrewrite=NOERROR;CAA;0 issue x",
 }
 
 var c06SrcCands = []string{
@@ -56,6 +58,7 @@ var c06DNSCands = []string{
 	"||ads.com^$badfilter", "||ads.com^$important,badfilter", "@@||ads.com^$badfilter", "@@||ads.com^$important,badfilter", "ads.com^$dnstype=A,badfilter",
 	"||ads.com^$denyallow=x.com", "@@||ads.com^$ctag=~tv",
 	"||ads.com^$dnsrewrite=1.2.3.4,badfilter", "||ads.com^$dnsrewrite=NXDOMAIN,badfilter", "@@||ads.com^$dnsrewrite,badfilter",
+	"||ads.com^$dnsrewrite=NOERROR;NS;ns1.example.net", "||ads.com^$dnsrewrite=NOERROR;SOA;x,important", "||ads.com^$dnsrewrite=NOERROR;CAA;0 issue x",
 }
 
 type c06Case struct {
